@@ -20,9 +20,15 @@ def _replay_chunk(args):
                 res = fn(case)
         except common.CallTimeout as e:
             res = [('timeout', 'the replay of one case did not finish (%s): a library call does not return' % e)]
-        except Exception as e:       # replay functions catch library exceptions themselves; this is a harness bug
+        except RuntimeError as e:    # raised by the harness itself (e.g. evaluator disagrees with TLC): machinery failure
             import traceback
             res = [('harness-error:' + type(e).__name__, traceback.format_exc()[-600:])]
+        except Exception as e:
+            # the replay functions catch the exceptions of the library calls themselves; what arrives here is a comparison
+            # that broke on a result of unexpected type / shape / content: a wrong result, reported as such
+            import traceback
+            res = [('unexpected-result:' + type(e).__name__, 'a returned object could not be compared with the expected result: ' +
+                    traceback.format_exc()[-500:])]
         calls += 1
         for sig, msg in (res or []):
             out.append((sig, msg, case))
